@@ -29,3 +29,6 @@ def run(ctx):
     from ..scen_limiter import limiter
     sorter(ctx, want_order=False, want_topn=True)      # panic paths of the buffering stages (capacity 0 included)
     limiter(ctx, {'nopanic', 'step'})
+    from ..kani import kani_family
+    kani_family(ctx, 'order.preorder', 'the comparison the std sorts are given is a total preorder over all numbers (an inconsistent comparator makes slice::sort panic)',
+                [('k_number_cmp_total_preorder_full', 'number-order-preorder', 'Ord for NumberValue antisymmetric and transitive over all u64 / i64 / finite f64')], ['json_value.rs'], timeout_s=900)
